@@ -114,6 +114,13 @@ class Gen:
         self.types.append({"name": "T%d" % (base + 1), "kind": "struct", "fields": [{"ident": "f0", "type": self.field_type(), "rename": r.choice([None, r.choice(RENAMES)])}]})
         self.types.append({"name": "T%d" % (base + 2), "kind": "enum", "variants": [{"ident": "V0", "rename": r.choice([None, r.choice(RENAMES)])}]})
         self.types.append({"name": "T%d" % (base + 3), "kind": "map", "fields": [{"ident": "f0", "type": self.field_type(), "rename": r.choice(RENAMES)}]})
+        # renames that differ only in leading / trailing white space, next to their trimmed siblings
+        edge = [" lead", "lead", "trail ", "trail", "\ttab", "tab", " ", "", "nbsp\u00a0", "nbsp", "\nnl\n", "nl"]
+        self.types.append({"name": "T%d" % (base + 4), "kind": "enum", "cover_all": True, "variants": [{"ident": "V%d" % j, "rename": edge[j]} for j in range(len(edge))]})
+        # a struct all of whose fields are optional, and holders of an OPTIONAL such struct (None must stay None)
+        self.types.append({"name": "T%d" % (base + 5), "kind": "struct", "fields": [{"ident": "f0", "type": ("option", ("bool",)), "rename": None}, {"ident": "f1", "type": ("option", ("string",)), "rename": r.choice([None, "o p t"])}]})
+        self.types.append({"name": "T%d" % (base + 6), "kind": "struct", "cover_none": True, "fields": [{"ident": "f0", "type": ("option", ("named", base + 5)), "rename": None}, {"ident": "f1", "type": ("vec", ("option", ("named", base + 5))), "rename": None}]})
+        self.types.append({"name": "T%d" % (base + 7), "kind": "tuple", "cover_none": True, "fields": [{"type": ("option", ("named", base + 5))}, {"type": ("option", ("named", base + 4))}]})
 
     def decl(self, t):
         if t["kind"] in ("struct", "map"):
@@ -269,9 +276,26 @@ def gen_program(seed, index, nvalues, nliterals, wide=False):
         out.append("")
     out.append("fn main() {")
     nv = 0
-    for vi in range(nvalues):
-        t = rng.choice(g.types)
-        ctor, exp = g.type_value(t, wide)
+    # coverage values first: every variant of the enums marked cover_all, and all-None values of the holders
+    forced = []
+    for t in g.types:
+        if t.get("cover_all"):
+            for v in t["variants"]:
+                forced.append((t, ("%s::%s" % (t["name"], v["ident"]), "Value::String(%s.to_string())" % rust_str(v["rename"] if v["rename"] is not None else v["ident"]))))
+        if t.get("cover_none") and t["kind"] == "struct":
+            inner = g.types[t["fields"][0]["type"][1][1]]
+            some_empty = "%s { f0: None, f1: None }" % inner["name"]
+            k1 = rust_str(inner["fields"][1]["rename"] if inner["fields"][1]["rename"] is not None else "f1")
+            exp_empty = "Value::Object(vec![(\"f0\".to_string(), Value::Null), (%s.to_string(), Value::Null)])" % k1
+            forced.append((t, ("%s { f0: None, f1: vec![None, Some(%s), None] }" % (t["name"], some_empty), "Value::Object(vec![(\"f0\".to_string(), Value::Null), (\"f1\".to_string(), Value::Array(vec![Value::Null, %s, Value::Null]))])" % exp_empty)))
+        if t.get("cover_none") and t["kind"] == "tuple":
+            forced.append((t, ("%s(None, None)" % t["name"], "Value::Array(vec![Value::Null, Value::Null])")))
+    for vi in range(nvalues + len(forced)):
+        if vi < len(forced):
+            t, (ctor, exp) = forced[vi]
+        else:
+            t = rng.choice(g.types)
+            ctor, exp = g.type_value(t, wide)
         tn = t["name"]
         out.append("    {")
         out.append("        let v: %s = %s;" % (tn, ctor))
